@@ -191,6 +191,9 @@ func main() {
 			ctx.Input(in, true)
 		}
 	}
+	if p.ID == "C19" {
+		concurrentFirstUse()
+	}
 	if *replay != "" {
 		runFile(*replay, "replay")
 	} else {
